@@ -108,9 +108,18 @@ def isMatch (env : Env) (s : Suppr) (m : Msg) : Bool × Suppr :=
 def isWildcard (s : Suppr) : Bool := s.fileName.any (fun c => c = '?' || c = '*')
 def isLocal (s : Suppr) : Bool := !s.fileName.isEmpty && !isWildcard s
 
-def isSameParameters (a b : Suppr) : Bool :=
+/-- SWITCH: is /verif/proposed/C23-sameparameters.diff part of lib/suppressions.h?  `true` since /repo commit f569efa
+    (`false` = the code before: `isSameParameters` ignored type, lineBegin, lineEnd and macroName; kept only for
+    `addSuppression_block_dropped_counterexample`) -/
+def sameParamsFixApplied : Bool := true
+
+/-- `Suppression::isSameParameters`; `sfix = true` is the comparison after proposed/C23-sameparameters.diff -/
+def isSameParametersG (sfix : Bool) (a b : Suppr) : Bool :=
   a.errorId = b.errorId && a.fileName = b.fileName && a.lineNumber = b.lineNumber &&
-  a.symbolName = b.symbolName && a.hash = b.hash && a.thisAndNextLine = b.thisAndNextLine
+  a.symbolName = b.symbolName && a.hash = b.hash && a.thisAndNextLine = b.thisAndNextLine &&
+  (!sfix || (a.type = b.type && a.lineBegin = b.lineBegin && a.lineEnd = b.lineEnd && a.macroName = b.macroName))
+
+def isSameParameters (a b : Suppr) : Bool := isSameParametersG sameParamsFixApplied a b
 
 def unmatchedId : Str := "unmatchedSuppression".toList
 
@@ -162,13 +171,15 @@ def idCharsOk : Str → Bool
   | c :: r => isAcceptedErrorIdChar c && !isDigit c && r.all isAcceptedErrorIdChar
 
 /-- `SuppressionList::addSuppression` -/
-def addSuppression (l : List Suppr) (s : Suppr) : AddErr × List Suppr :=
-  if l.any (isSameParameters s) then (.exists, l)
+def addSuppressionG (sfix : Bool) (l : List Suppr) (s : Suppr) : AddErr × List Suppr :=
+  if l.any (isSameParametersG sfix s) then (.exists, l)
   else if s.errorId.isEmpty && s.hash = 0 then (.noId, l)
   else if !idCharsOk s.errorId then (.invalidId, l)
   else if !isValidGlobPattern s.errorId then (.badGlobId, l)
   else if !isValidGlobPattern s.fileName then (.badGlobFile, l)
   else (.ok, l ++ [s])
+
+def addSuppression (l : List Suppr) (s : Suppr) : AddErr × List Suppr := addSuppressionG sameParamsFixApplied l s
 
 /-! ### the report gate: `CppCheck::CppCheckLogger::reportErr` -/
 
